@@ -684,10 +684,11 @@ class OneShot(object):
 
 
 class SymSet(object):
-    """a set holding symbolic elements (only membership-free uses are supported)"""
+    """a set whose membership is symbolic: [(guard, element)]; its iteration order depends on
+    the hash seed, so any traversal is recorded as a hash-order event"""
 
     def __init__(self, items):
-        self.items = list(items)
+        self.items = [x if isinstance(x, tuple) and len(x) == 2 and z3.is_expr(x[0]) else (z3.BoolVal(True), x) for x in items]
 
 
 # --------------------------------------------------------------------------------------------
@@ -750,8 +751,14 @@ def call_method(eng, recv, name, args, kwargs, st):
                 return getattr(recv, name)(*args, **kwargs)
             except Exception as e:  # noqa
                 raise PyRaise(type(e), e.args)
-        if name in ("difference", "union", "intersection", "issubset", "issuperset", "symmetric_difference") and len(args) == 1 and isinstance(args[0], SMap):
-            raise Unsupported("set algebra with a symbolic map")
+        if name in ("difference", "intersection") and len(args) == 1 and isinstance(args[0], SMap) and all(isinstance(x, str) for x in recv):
+            m = args[0]
+            items = []
+            for x in sorted(recv):
+                has = m.has(x)
+                g = z3.Not(has) if name == "difference" else has
+                items.append((z3.simplify(g), x))
+            return SymSet(items)
         raise Unsupported("set.%s" % name)
     if isinstance(recv, (tuple, int, float, frozenset, Fraction)):
         if all(is_concrete(a) for a in args):
@@ -931,6 +938,8 @@ def sstr_method(eng, s, name, args, kwargs, st):
         return S.upper(s)
     if name == "lower":
         return S.lower(s)
+    if name in ("capitalize", "title", "swapcase", "casefold", "lstrip", "rstrip") and not args and not kwargs:
+        return S.pure_method(s, name)
     if name == "format":
         # str.format on an unknown template: a template with unbalanced or out-of-range braces
         # raises ValueError / IndexError / KeyError, otherwise the result is some string
@@ -950,6 +959,9 @@ def sstr_method(eng, s, name, args, kwargs, st):
 def str_method(eng, s, name, args, kwargs, st):
     if name == "join":
         items = args[0]
+        if isinstance(items, SymSet):
+            st.events.append(("hash-order", "a set is joined into a string: element order depends on the hash seed"))
+            items = GList(items.items)
         if isinstance(items, GList):
             if all(z3.is_true(g) for g, _ in items.items):
                 items = [x for _, x in items.items]
